@@ -31,19 +31,21 @@ var distDenoms = []string{"uc4e", "foo", "ibc/27394FB092D2ECCD56123C74F36E4C1F92
 // BeginBlocker is called directly on the app's stores so that the books can be
 // observed right after it ran.
 type distEnv struct {
-	n        *chain.Node
-	faucet   chain.Key
-	bases    []chain.Key
-	vesting  chain.Key
-	blocked  string
-	mainAddr string
-	keeper   distkeeper.Keeper
-	model    *model.Distributor
-	subs     []model.DSub
-	receipts map[string]model.Coins // address or BURN -> cumulative gross receipts from main
-	assigned map[string]model.Coins // destination key -> cumulative amounts reported by Distribution events
-	block    int
-	time     time.Time
+	n *chain.Node
+	// inflows are multiples of 20^5 (used together with gen.DistOpts.NiceShares)
+	wholeAmounts bool
+	faucet       chain.Key
+	bases        []chain.Key
+	vesting      chain.Key
+	blocked      string
+	mainAddr     string
+	keeper       distkeeper.Keeper
+	model        *model.Distributor
+	subs         []model.DSub
+	receipts     map[string]model.Coins // address or BURN -> cumulative gross receipts from main
+	assigned     map[string]model.Coins // destination key -> cumulative amounts reported by Distribution events
+	block        int
+	time         time.Time
 }
 
 func distOpts(e *distEnv, alias bool) gen.DistOpts {
@@ -201,6 +203,14 @@ func (e *distEnv) inflow(r *rand.Rand) (total int) {
 			continue
 		}
 		coins := randCoins(rr)
+		if e.wholeAmounts {
+			// multiples of 20^5: with 5% shares nothing fractional is ever left anywhere
+			w := sdk.NewCoins()
+			for _, cn := range coins {
+				w = w.Add(sdk.NewCoin(cn.Denom, cn.Amount.ModRaw(1000).AddRaw(1).MulRaw(3_200_000)))
+			}
+			coins = w
+		}
 		switch t.s.Type {
 		case model.KMain:
 			// module accounts are paid by name so that they are materialised as module accounts
